@@ -101,6 +101,13 @@ func c15mSeq(variant string, ops []string) func(x *sched.Exec) {
 				if !shutTried {
 					added++
 				}
+				if provShut {
+					// "providers hand out no-op ... meters": a no-op meter accepts any instrument name
+					// without complaint, a live one validates it
+					if _, e2 := mp.Meter("after-shutdown").Int64Counter("1 not a valid name"); e2 != nil {
+						x.Fail("C15|meter-after-shutdown-is-not-a-no-op|metrics", "a meter handed out after MeterProvider.Shutdown had returned nil still validates instruments: %v (%s)", e2, where(i))
+					}
+				}
 			case "AddOld":
 				oldC.Add(ctx, 1)
 				if !shutTried {
